@@ -44,6 +44,16 @@ fn configs() -> Vec<Cfg> {
         ])
         .strict(false),
     );
+    // streaming insertion of non-ASCII content: the second half starts with a multi-byte character,
+    // so the UTF-8 chunks are split inside it (with an empty chunk in between)
+    v.push(
+        Cfg::with(vec![
+            HSpec { end_tag_ops: Some(vec![Op::Before("\u{e9}\u{20ac}x".into(), true)]), ..HSpec::with_ops(HKind::Element, "a", vec![Op::Before("\u{e9}\u{20ac}x".into(), true), Op::Append("ab\u{1f600}".into(), false)]) },
+            HSpec { last_only: true, ..HSpec::with_ops(HKind::DocText, "", vec![Op::After("\u{416}\u{416}".into(), false)]) },
+        ])
+        .strict(false)
+        .streaming(true),
+    );
     // empty content: replace("") / set_inner_content("") still remove, before("") etc. are no-ops
     v.push(
         Cfg::with(vec![
